@@ -8,8 +8,10 @@
     the node list), [json_proof] (= encoding/json into the Proof struct); what is assumed about
     [mpt_verify] is the explicit premise [mpt_sound] of the theorems that need it. *)
 From Teleport Require Import Base.Bytes Base.Outcome Model.EvmProof Model.EvmProofCheck Model.EvmProofWitness
-     Proofs.EvmProofRlp Proofs.EvmProof Proofs.EvmProofKeys.
-From Teleport Require Base.Fmt Gen.KeysGen.
+     Model.EvmProofMpt Model.EvmProofTrie Model.EvmProofMptCheck Model.EvmProofMptWitness Proofs.EvmProofRlp Proofs.EvmProof Proofs.EvmProofKeys Proofs.EvmProofMpt
+     Proofs.EvmProofMptWf Proofs.EvmProofMptFuel Proofs.EvmProofMptLoop Proofs.EvmProofDelay Proofs.EvmProofSchema
+     Proofs.EvmProofTrieRlp Proofs.EvmProofTrie.
+From Teleport Require Base.Fmt Gen.KeysGen Gen.EvmProofSchemaGen.
 Local Open Scope N_scope.
 
 Section Statements.
@@ -279,6 +281,25 @@ Theorem C08_keys_match_go_source :
 Proof. exact keys_match_go_source. Qed.
 Print Assumptions C08_keys_match_go_source.
 
+(** The struct schemas the model was written from are the ones of the Go source: tools/gotocoq/evmproof regenerates
+    (Gen/EvmProofSchemaGen.v) the JSON names / types of [Proof] and [StorageResult], the field order and types of
+    [ProofAccount], the way [verifyMerkleProof] computes each account field from the proof record, the
+    "exactly one storage proof" constant and [paramsIndex] / [paramsLenght], for BOTH client packages. *)
+Theorem C08_schema_matches_go_source : schema_ok = true.
+Proof. exact schema_ok_true. Qed.
+Print Assumptions C08_schema_matches_go_source.
+
+(** [rlp_account (account_of_record r)] of the model is the interpretation (a struct is the RLP list of its fields
+    in declaration order; [*big.Int] = minimal big-endian string, [common.Hash] = 32-byte string) of the regenerated
+    [ProofAccount] schema and wiring, for every proof record, in both copies. *)
+Theorem C08_account_encoding_from_go_source :
+  (exists s, schema_sem EvmProofSchemaGen.eth_ProofAccount_fields EvmProofSchemaGen.eth_account_wiring = Some s /\
+             forall r, rlp_account_of_sem s r = Some (rlp_account (account_of_record r))) /\
+  (exists s, schema_sem EvmProofSchemaGen.bsc_ProofAccount_fields EvmProofSchemaGen.bsc_account_wiring = Some s /\
+             forall r, rlp_account_of_sem s r = Some (rlp_account (account_of_record r))).
+Proof. exact account_encoding_from_go_source. Qed.
+Print Assumptions C08_account_encoding_from_go_source.
+
 (** [verify] depends on the oracles only through the list [queries]: if the harness's tables agree with the
     real functions on these arguments, the model evaluated on the tables is the model on the real functions. *)
 Theorem C08_oracle_footprint :
@@ -304,6 +325,326 @@ Theorem C08_monitor_sound : forall keccak256 mpt_verify json_proof commits,
 Proof. exact monitor_sound. Qed.
 Print Assumptions C08_monitor_sound.
 
+(** ** 8. No premise on the trie library: [trie.VerifyProof] itself is in the model.
+
+    [mpt_verify_g keccak256] (Model/EvmProofMpt.v) transcribes go-ethereum's [trie.VerifyProof] on a
+    [light.NodeList] (node RLP decoding, compact / hex-prefix keys, embedded nodes, the hash-keyed node set); Keccak
+    is the ONLY oracle and nothing is assumed about it: the statements end in "... \/ collision keccak256", where
+    [collision] exhibits two DIFFERENT byte strings with the SAME hash.
+
+    [db_value keccak256 root key ov]: SOME node database (each node stored under its Keccak hash, as geth's trie
+    database does) resolves [key] under [root] -- the walk of geth's trie reader -- and finds [ov] ([None] = not
+    present).  [commits_db keccak256 root m]: one database resolves every key, and [m] is what it finds. *)
+
+(** what a root holds at a key does not depend on the database *)
+Theorem C08_db_value_unique : forall keccak256 root key ov1 ov2,
+  db_value keccak256 root key ov1 -> db_value keccak256 root key ov2 -> ov1 = ov2 \/ collision keccak256.
+Proof. exact db_value_unique. Qed.
+Print Assumptions C08_db_value_unique.
+
+(** the verifier's answer is what every database holds, or a collision is in hand *)
+Theorem C08_mpt_verify_sound : forall keccak256 root key nodes v ov,
+  mpt_verify_g keccak256 root key nodes = Some v -> db_value keccak256 root key ov ->
+  ov = lookup_result v \/ collision keccak256.
+Proof. exact mpt_verify_sound_at. Qed.
+Print Assumptions C08_mpt_verify_sound.
+
+Theorem C08_commits_db_value : forall keccak256 root m key,
+  commits_db keccak256 root m -> db_value keccak256 root key (m key).
+Proof. exact commits_db_value. Qed.
+Print Assumptions C08_commits_db_value.
+
+(** the premise [mpt_sound] of the theorems of sections 2 and 5 holds for the Gallina verifier when Keccak has no
+    collision *)
+Theorem C08_mpt_sound_of_no_collision : forall keccak256,
+  ~ collision keccak256 -> mpt_sound (mpt_verify_g keccak256) (commits_db keccak256).
+Proof. exact mpt_sound_of_no_collision. Qed.
+Print Assumptions C08_mpt_sound_of_no_collision.
+
+(** Soundness with Keccak as the only oracle (compare [C08_evm_proof_sound]). *)
+Theorem C08_evm_proof_sound_mpt : forall keccak256 json_proof cs cstore oh op ack src dst seq c,
+  verify keccak256 (mpt_verify_g keccak256) json_proof cs cstore oh op ack src dst seq c = Ok tt ->
+  exists h p, oh = Some h /\ op = Some p /\
+    (rn h = rn (cs_head cs) /\ rh h <= rh (cs_head cs) /\
+     delay_block cs <= sub64 (rh (cs_head cs)) (rh h)) /\
+    exists rootb acct,
+      cstore (consensus_key h) = ConsRoot rootb /\
+      account_wf acct /\ length (a_storage acct) = 32%nat /\ length (a_code acct) = 32%nat /\
+      (forall oa, db_value keccak256 (bytes_to_hash rootb) (keccak256 (cs_contract cs)) oa ->
+                  oa = Some (rlp_account acct) \/ collision keccak256) /\
+      (forall ov, db_value keccak256 (a_storage acct) (keccak256 (proof_key keccak256 ack src dst seq)) ov ->
+                  (exists raw t, ov = Some raw /\ rlp_decode_bytes raw = Some t /\ left_pad32 t = c)
+                  \/ collision keccak256).
+Proof. exact sound_mpt. Qed.
+Print Assumptions C08_evm_proof_sound_mpt.
+
+(** End to end: if the stored root holds account [acct] at the configured contract address and [acct]'s storage
+    root holds [ov] at the slot of exactly this path, whatever is accepted for (kind, src, dst, seq, value) is
+    there, as a canonical RLP string whose left-padding to 32 bytes is exactly the value. *)
+Theorem C08_accepted_holds : forall keccak256 json_proof cs cstore h p ack src dst seq c rootb acct ov,
+  verify keccak256 (mpt_verify_g keccak256) json_proof cs cstore (Some h) (Some p) ack src dst seq c = Ok tt ->
+  cstore (consensus_key h) = ConsRoot rootb ->
+  db_value keccak256 (bytes_to_hash rootb) (keccak256 (cs_contract cs)) (Some (rlp_account acct)) ->
+  account_wf acct -> length (a_storage acct) = 32%nat -> length (a_code acct) = 32%nat ->
+  db_value keccak256 (a_storage acct) (keccak256 (proof_key keccak256 ack src dst seq)) ov ->
+  (exists raw t, ov = Some raw /\ rlp_decode_bytes raw = Some t /\ left_pad32 t = c) \/ collision keccak256.
+Proof. exact accepted_holds_at. Qed.
+Print Assumptions C08_accepted_holds.
+
+(** another value / an absent key / a truncated, padded or otherwise mutated proof of a false claim: rejected *)
+Theorem C08_false_claim_rejected_mpt : forall keccak256 json_proof cs cstore h p ack src dst seq c rootb acct ov,
+  cstore (consensus_key h) = ConsRoot rootb ->
+  db_value keccak256 (bytes_to_hash rootb) (keccak256 (cs_contract cs)) (Some (rlp_account acct)) ->
+  account_wf acct -> length (a_storage acct) = 32%nat -> length (a_code acct) = 32%nat ->
+  db_value keccak256 (a_storage acct) (keccak256 (proof_key keccak256 ack src dst seq)) ov ->
+  match ov with
+  | None => True
+  | Some raw => forall t, rlp_decode_bytes raw = Some t -> left_pad32 t <> c
+  end ->
+  verify keccak256 (mpt_verify_g keccak256) json_proof cs cstore (Some h) (Some p) ack src dst seq c <> Ok tt
+  \/ collision keccak256.
+Proof. exact false_claim_rejected_at. Qed.
+Print Assumptions C08_false_claim_rejected_mpt.
+
+(** the same two statements against whole worlds ([commits_db]) *)
+Theorem C08_accepted_holds_world : forall keccak256 json_proof cs cstore h p ack src dst seq c rootb world acct st,
+  verify keccak256 (mpt_verify_g keccak256) json_proof cs cstore (Some h) (Some p) ack src dst seq c = Ok tt ->
+  cstore (consensus_key h) = ConsRoot rootb -> commits_db keccak256 (bytes_to_hash rootb) world ->
+  world (keccak256 (cs_contract cs)) = Some (rlp_account acct) ->
+  account_wf acct -> length (a_storage acct) = 32%nat -> length (a_code acct) = 32%nat ->
+  commits_db keccak256 (a_storage acct) st ->
+  (exists raw t, st (keccak256 (proof_key keccak256 ack src dst seq)) = Some raw /\
+                 rlp_decode_bytes raw = Some t /\ left_pad32 t = c) \/ collision keccak256.
+Proof. exact accepted_holds_mpt. Qed.
+Print Assumptions C08_accepted_holds_world.
+
+Theorem C08_false_claim_rejected_world : forall keccak256 json_proof cs cstore h p ack src dst seq c rootb world acct st,
+  cstore (consensus_key h) = ConsRoot rootb -> commits_db keccak256 (bytes_to_hash rootb) world ->
+  world (keccak256 (cs_contract cs)) = Some (rlp_account acct) ->
+  account_wf acct -> length (a_storage acct) = 32%nat -> length (a_code acct) = 32%nat ->
+  commits_db keccak256 (a_storage acct) st ->
+  match st (keccak256 (proof_key keccak256 ack src dst seq)) with
+  | None => True
+  | Some raw => forall t, rlp_decode_bytes raw = Some t -> left_pad32 t <> c
+  end ->
+  verify keccak256 (mpt_verify_g keccak256) json_proof cs cstore (Some h) (Some p) ack src dst seq c <> Ok tt
+  \/ collision keccak256.
+Proof. exact false_claim_rejected_mpt. Qed.
+Print Assumptions C08_false_claim_rejected_world.
+
+(** another contract: the stored root holds no account at the configured address *)
+Theorem C08_missing_account_rejected_mpt : forall keccak256 json_proof cs cstore h p ack src dst seq c rootb,
+  cstore (consensus_key h) = ConsRoot rootb ->
+  db_value keccak256 (bytes_to_hash rootb) (keccak256 (cs_contract cs)) None ->
+  verify keccak256 (mpt_verify_g keccak256) json_proof cs cstore (Some h) (Some p) ack src dst seq c <> Ok tt
+  \/ collision keccak256.
+Proof. exact missing_account_rejected_at. Qed.
+Print Assumptions C08_missing_account_rejected_mpt.
+
+(** ALL mutations at once, no world needed: two accepted proofs (any node lists, spellings, account fields) for
+    the same client state, store, height and path carry the same value -- or exhibit a collision *)
+Theorem C08_accepted_value_unique_mpt : forall keccak256 json_proof cs cstore h p1 p2 ack src dst seq c1 c2,
+  verify keccak256 (mpt_verify_g keccak256) json_proof cs cstore (Some h) (Some p1) ack src dst seq c1 = Ok tt ->
+  verify keccak256 (mpt_verify_g keccak256) json_proof cs cstore (Some h) (Some p2) ack src dst seq c2 = Ok tt ->
+  c1 = c2 \/ collision keccak256.
+Proof. exact accepted_value_unique_mpt. Qed.
+Print Assumptions C08_accepted_value_unique_mpt.
+
+(** Completeness of the verifier: a node list in which every hash the world's walk asks for finds the world's node
+    (what [Trie.Prove] collects; order, duplicates and surplus nodes do not matter) resolves the key to the same
+    answer -- or names a hash the list lacks. *)
+Theorem C08_mpt_subproof_resolves : forall keccak256 world nodes root key v,
+  resolves keccak256 world root key v ->
+  (forall h b, find_node keccak256 world h = Some b ->
+               find_node keccak256 nodes h = Some b \/ find_node keccak256 nodes h = None) ->
+  resolves keccak256 nodes root key v \/
+  exists h, find_node keccak256 world h <> None /\ find_node keccak256 nodes h = None.
+Proof. exact resolves_subproof. Qed.
+Print Assumptions C08_mpt_subproof_resolves.
+
+(** The round budget of the Gallina verifier is never a limit (pigeonhole over (hash, key-suffix) states): it returns
+    [v] exactly when its node list, read as a node database, resolves the key to [v] in ANY number of rounds. *)
+Theorem C08_mpt_verify_iff_resolves : forall keccak256 root key nodes v,
+  mpt_verify_g keccak256 root key nodes = Some v <-> resolves keccak256 nodes root key v.
+Proof. exact mpt_verify_g_iff_resolves. Qed.
+Print Assumptions C08_mpt_verify_iff_resolves.
+
+(** ... and [WLoop] (budget exhausted) means that no number of rounds gives an answer: the Go loop does not end *)
+Theorem C08_wloop_means_no_answer : forall keccak256 root key nodes,
+  walk keccak256 nodes (walk_fuel nodes key) root (keybytes_to_hex key) = WLoop ->
+  forall fuel, ~ definitive (walk keccak256 nodes fuel root (keybytes_to_hex key)).
+Proof. exact wloop_means_no_answer. Qed.
+Print Assumptions C08_wloop_means_no_answer.
+
+(** the level bound of [decode_node] (embedded nodes) is never a limit either *)
+Theorem C08_decode_node_fuel_enough : forall buf f, (length buf < f)%nat -> decode_node_fuel f buf = decode_node buf.
+Proof. exact decode_node_fuel_enough. Qed.
+Print Assumptions C08_decode_node_fuel_enough.
+
+(** "Accepted EXACTLY WHEN", with the trie library inside the model and Keccak the only oracle: the gates hold, the
+    record decodes, and the proof's own node lists -- as node databases -- resolve keccak(configured contract) under
+    the root stored for exactly this height to the account the record's fields rebuild, and keccak(slot of exactly
+    this path) under that account's storage root to a canonical RLP string whose left-padding to 32 bytes is the
+    value.  (Compare [C08_accept_iff]; with [C08_db_value_unique] the two [resolves] facts are facts about EVERY node
+    database under these roots, up to an explicit collision.) *)
+Theorem C08_accept_iff_mpt : forall keccak256 json_proof cs cstore oh op ack src dst seq c,
+  verify keccak256 (mpt_verify_g keccak256) json_proof cs cstore oh op ack src dst seq c = Ok tt <->
+  exists h p, oh = Some h /\ op = Some p /\
+    exists r rootb sp v t,
+      height_lt (cs_head cs) h = false /\
+      rn h = rn (cs_head cs) /\
+      json_proof p = Some r /\
+      cstore (consensus_key h) = ConsRoot rootb /\
+      delay_block cs <= sub64 (rh (cs_head cs)) (rh h) /\
+      from_hex (p_address r) = cs_contract cs /\
+      resolves keccak256 (map from_hex (p_account_proof r)) (bytes_to_hash rootb) (keccak256 (cs_contract cs))
+               (rlp_account (account_of_record r)) /\
+      p_storage_proof r = [Some sp] /\
+      hex_to_hash (sr_key sp) = proof_key keccak256 ack src dst seq /\
+      resolves keccak256 (map from_hex (sr_proof sp)) (a_storage (account_of_record r))
+               (keccak256 (proof_key keccak256 ack src dst seq)) v /\
+      rlp_decode_bytes v = Some t /\ left_pad32 t = c.
+Proof. exact verify_mpt_ok_iff. Qed.
+Print Assumptions C08_accept_iff_mpt.
+
+(** Completeness with the Gallina verifier in place: the honest rendering of node lists that resolve keccak(contract)
+    under the stored root to the account and keccak(slot) under the account's storage root to the canonical RLP of
+    the zero-stripped value is accepted (any 32-byte value, leading zeros included).  With
+    [C08_mpt_subproof_resolves]: any node list containing the world's path nodes will do. *)
+Theorem C08_honest_proof_accepted_mpt :
+  forall keccak256 json_proof cs cstore h p ack src dst seq c rootb a acct_nodes st_nodes value,
+  rn h = rn (cs_head cs) -> rh h <= rh (cs_head cs) -> h64 (cs_head cs) ->
+  delay_block cs <= rh (cs_head cs) - rh h ->
+  json_proof p = Some (honest_record (cs_contract cs) a (proof_key keccak256 ack src dst seq) acct_nodes st_nodes value) ->
+  cstore (consensus_key h) = ConsRoot rootb ->
+  a_nonce a < 2 ^ 256 -> a_balance a < 2 ^ 256 -> length (a_storage a) = 32%nat -> length (a_code a) = 32%nat ->
+  length (proof_key keccak256 ack src dst seq) = 32%nat ->
+  resolves keccak256 acct_nodes (bytes_to_hash rootb) (keccak256 (cs_contract cs)) (rlp_account a) ->
+  resolves keccak256 st_nodes (a_storage a) (keccak256 (proof_key keccak256 ack src dst seq)) (rlp_string (strip_zeros c)) ->
+  length c = 32%nat ->
+  verify keccak256 (mpt_verify_g keccak256) json_proof cs cstore (Some h) (Some p) ack src dst seq c = Ok tt.
+Proof. exact honest_accepted_resolves. Qed.
+Print Assumptions C08_honest_proof_accepted_mpt.
+
+(** Malleability, stated positively: whatever a node list proves, the list followed by ANY further nodes proves too;
+    hence a "padded" proof of a TRUE claim is accepted (and, by the theorems above, only of a true claim).  The
+    property text's "a padded proof is rejected" is refuted in this literal reading in Refuted/C08_refuted.v. *)
+Theorem C08_mpt_verify_padded : forall keccak256 root key nodes extra v,
+  mpt_verify_g keccak256 root key nodes = Some v -> mpt_verify_g keccak256 root key (nodes ++ extra) = Some v.
+Proof. exact mpt_verify_g_padded. Qed.
+Print Assumptions C08_mpt_verify_padded.
+
+(** [trie.VerifyProof] cannot panic: the [key[0]] of go-ethereum's [get] is never evaluated on an exhausted key,
+    because the walk's key is [keybytesToHex(k)] and decoded nodes consume the terminator only through values.
+    (So the [option] result of the [mpt_verify] oracle loses nothing.) *)
+Theorem C08_verify_proof_no_panic : forall keccak256 root key nodes,
+  walk keccak256 nodes (walk_fuel nodes key) root (keybytes_to_hex key) <> WPanic.
+Proof. exact verify_proof_no_panic. Qed.
+Print Assumptions C08_verify_proof_no_panic.
+
+(** ** 9. The confirmation depth.  BSC: [GetDelayBlock = len(Validators)/2 + 1] is, for every validator count a Go
+    slice can have, the least number of blocks exceeding half of the validator set; ETH: the configured field. *)
+Theorem C08_bsc_delay_block_majority : forall cs, cs_kind cs = BSC -> cs_nvalidators cs < 2 ^ 63 ->
+  cs_nvalidators cs < 2 * delay_block cs /\ 2 * (delay_block cs - 1) <= cs_nvalidators cs /\ 1 <= delay_block cs.
+Proof. exact bsc_delay_block_majority. Qed.
+Print Assumptions C08_bsc_delay_block_majority.
+
+Theorem C08_eth_delay_block_value : forall cs, cs_kind cs = ETH -> delay_block cs = cs_block_delay cs.
+Proof. exact eth_delay_block_value. Qed.
+Print Assumptions C08_eth_delay_block_value.
+
+(** [GetDelayTime] (BSC) is the depth times the block interval while that fits in a uint64 *)
+Theorem C08_bsc_delay_time_exact : forall n iv, n < 2 ^ 63 -> (n / 2 + 1) * iv < two64 ->
+  delay_time BSC n iv 0 = (n / 2 + 1) * iv.
+Proof. exact bsc_delay_time_exact. Qed.
+Print Assumptions C08_bsc_delay_time_exact.
+
+(** ** 10. Abstract tries: every trie is a world.
+
+    [tnode] (Model/EvmProofTrie.v) is a Merkle-Patricia trie as a tree (leaf / extension / branch with resolved children),
+    [enc] its node encoding as go-ethereum's hasher writes it (children shorter than 32 bytes embedded, others referred
+    to by hash), [tlookup] its content, [db_of] its node database.  Keccak: an arbitrary function returning 32 bytes.
+    [twf]: nibbles below 16, 16 children per branch, encodings shorter than 2^64 bytes. *)
+
+(** [decodeNode] inverts the node encoder, whatever follows the node in the buffer *)
+Theorem C08_decode_enc : forall keccak256, (forall x, length (keccak256 x) = 32%nat) ->
+  forall t, twf keccak256 t -> forall rest, decode_node (enc keccak256 t ++ rest) = Some (shallow keccak256 t).
+Proof. exact decode_enc. Qed.
+Print Assumptions C08_decode_enc.
+
+(** re-encoding the decoded node gives the bytes back (what the run-time check evaluates on geth's own nodes) *)
+Theorem C08_enc_node_shallow : forall keccak256 t, twf keccak256 t -> enc_node (shallow keccak256 t) = enc keccak256 t.
+Proof. exact enc_node_shallow. Qed.
+Print Assumptions C08_enc_node_shallow.
+
+(** the node database of a trie resolves every key to the trie's content: every trie is a world (non-vacuity of the
+    premises [db_value] / [commits_db] for ALL tries, not only recorded ones) *)
+Theorem C08_trie_resolves : forall keccak256, (forall x, length (keccak256 x) = 32%nat) ->
+  forall t key, twf keccak256 t ->
+  resolves keccak256 (db_of keccak256 t) (keccak256 (enc keccak256 t)) key (tlookup t (keybytes_to_hex key))
+  \/ collision keccak256.
+Proof. exact trie_resolves. Qed.
+Print Assumptions C08_trie_resolves.
+
+Theorem C08_trie_commits : forall keccak256, (forall x, length (keccak256 x) = 32%nat) ->
+  forall t, twf keccak256 t -> ~ collision keccak256 ->
+  commits_db keccak256 (keccak256 (enc keccak256 t)) (fun key => lookup_result (tlookup t (keybytes_to_hex key))).
+Proof. exact trie_commits. Qed.
+Print Assumptions C08_trie_commits.
+
+(** THE PROPERTY, soundness direction, over "all state tries, accounts, storage contents": if the root stored for the
+    proof height is the root hash of the state trie [world], [world] holds the account [acct] at keccak(configured
+    contract) and [acct]'s storage root is the root hash of the storage trie [st], then whatever is accepted for
+    (kind, src, dst, seq, value) -- any proof bytes, any node lists -- is what [st] holds at keccak(slot of exactly this
+    path): a canonical RLP string whose left-padding to 32 bytes is exactly the value; or a collision is exhibited. *)
+Theorem C08_accepted_holds_trie : forall keccak256, (forall x, length (keccak256 x) = 32%nat) ->
+  forall json_proof cs cstore h p ack src dst seq c rootb (world st : tnode) acct,
+  verify keccak256 (mpt_verify_g keccak256) json_proof cs cstore (Some h) (Some p) ack src dst seq c = Ok tt ->
+  cstore (consensus_key h) = ConsRoot rootb ->
+  twf keccak256 world -> keccak256 (enc keccak256 world) = bytes_to_hash rootb ->
+  tlookup world (keybytes_to_hex (keccak256 (cs_contract cs))) = rlp_account acct ->
+  account_wf acct -> length (a_storage acct) = 32%nat -> length (a_code acct) = 32%nat ->
+  twf keccak256 st -> keccak256 (enc keccak256 st) = a_storage acct ->
+  (exists t, rlp_decode_bytes (tlookup st (keybytes_to_hex (keccak256 (proof_key keccak256 ack src dst seq)))) = Some t /\
+             left_pad32 t = c) \/ collision keccak256.
+Proof. exact accepted_holds_trie. Qed.
+Print Assumptions C08_accepted_holds_trie.
+
+Theorem C08_false_claim_rejected_trie : forall keccak256, (forall x, length (keccak256 x) = 32%nat) ->
+  forall json_proof cs cstore h p ack src dst seq c rootb (world st : tnode) acct,
+  cstore (consensus_key h) = ConsRoot rootb ->
+  twf keccak256 world -> keccak256 (enc keccak256 world) = bytes_to_hash rootb ->
+  tlookup world (keybytes_to_hex (keccak256 (cs_contract cs))) = rlp_account acct ->
+  account_wf acct -> length (a_storage acct) = 32%nat -> length (a_code acct) = 32%nat ->
+  twf keccak256 st -> keccak256 (enc keccak256 st) = a_storage acct ->
+  (forall t, rlp_decode_bytes (tlookup st (keybytes_to_hex (keccak256 (proof_key keccak256 ack src dst seq)))) = Some t ->
+             left_pad32 t <> c) ->
+  verify keccak256 (mpt_verify_g keccak256) json_proof cs cstore (Some h) (Some p) ack src dst seq c <> Ok tt
+  \/ collision keccak256.
+Proof. exact false_claim_rejected_trie. Qed.
+Print Assumptions C08_false_claim_rejected_trie.
+
+(** ... and the completeness direction over abstract tries: the honest rendering of the two tries' node databases is
+    accepted for the value the storage trie holds (any 32-byte value, leading zeros included), gates permitting. *)
+Theorem C08_honest_proof_accepted_trie : forall keccak256, (forall x, length (keccak256 x) = 32%nat) ->
+  forall json_proof cs cstore h p ack src dst seq c rootb (world st : tnode) acct value,
+  rn h = rn (cs_head cs) -> rh h <= rh (cs_head cs) -> h64 (cs_head cs) ->
+  delay_block cs <= rh (cs_head cs) - rh h ->
+  json_proof p = Some (honest_record (cs_contract cs) acct (proof_key keccak256 ack src dst seq)
+                                     (db_of keccak256 world) (db_of keccak256 st) value) ->
+  cstore (consensus_key h) = ConsRoot rootb ->
+  twf keccak256 world -> keccak256 (enc keccak256 world) = bytes_to_hash rootb ->
+  tlookup world (keybytes_to_hex (keccak256 (cs_contract cs))) = rlp_account acct ->
+  a_nonce acct < 2 ^ 256 -> a_balance acct < 2 ^ 256 -> length (a_storage acct) = 32%nat -> length (a_code acct) = 32%nat ->
+  length (proof_key keccak256 ack src dst seq) = 32%nat ->
+  twf keccak256 st -> keccak256 (enc keccak256 st) = a_storage acct ->
+  tlookup st (keybytes_to_hex (keccak256 (proof_key keccak256 ack src dst seq))) = rlp_string (strip_zeros c) ->
+  length c = 32%nat ->
+  verify keccak256 (mpt_verify_g keccak256) json_proof cs cstore (Some h) (Some p) ack src dst seq c = Ok tt
+  \/ collision keccak256.
+Proof. exact honest_accepted_trie. Qed.
+Print Assumptions C08_honest_proof_accepted_trie.
+
 (** ** 7. Non-vacuity: a case recorded from the real code (tables = real Keccak256 / trie.VerifyProof /
     encoding/json results): both copies accepted it, the model accepts it for both copies, the gates hold
     with 36 >= 14 confirmations, the value has 14 leading zero bytes, every oracle query of the model is
@@ -318,3 +659,52 @@ Example C08_nonvacuous :
   mismatches [c] = [] /\ monitor_failures [c] = [].
 Proof. vm_compute. repeat split; reflexivity. Qed.
 Print Assumptions C08_nonvacuous.
+
+(** Non-vacuity of section 8 on the same recorded case, now with the Keccak hashes of its proof nodes in the table
+    (Model/EvmProofMptWitness.v): the model with the GALLINA MPT verifier accepts it for both copies, the Gallina
+    verifier reproduces every recorded [trie.VerifyProof] result, and the premises of [C08_accepted_holds] are met:
+    the account-proof nodes are a node database under the stored root that resolves keccak(contract) to the account
+    RLP, the storage-proof nodes one under the account's storage root that resolves the slot to the stored string. *)
+Definition wm_record : proof_rec :=
+  match c_json witness_honest_mpt with
+  | Some r => r
+  | None => {| p_address := []; p_balance := []; p_code_hash := []; p_nonce := []; p_storage_hash := [];
+               p_account_proof := []; p_storage_proof := [] |}
+  end.
+Definition wm_acct : account := Eval vm_compute in account_of_record wm_record.
+Definition wm_root : bytes := Eval vm_compute in
+  match cstore_of witness_honest_mpt (consensus_key {| rn := 0; rh := 80605 |}) with ConsRoot r => r | _ => [] end.
+Definition wm_slot_key : bytes := Eval vm_compute in
+  keccak_of witness_honest_mpt (proof_key (keccak_of witness_honest_mpt) false (c_src witness_honest_mpt)
+                                          (c_dst witness_honest_mpt) (c_seq witness_honest_mpt)).
+
+Example C08_nonvacuous_mpt :
+  let c := witness_honest_mpt in
+  let k := keccak_of c in
+  model_class_g c ETH = 0%nat /\ model_class_g c BSC = 0%nat /\ c_eth_class c = 0%nat /\ c_bsc_class c = 0%nat /\
+  ecase_mpt_check c = [] /\ length (c_mpt c) = 2%nat /\
+  cstore_of c (consensus_key {| rn := 0; rh := 80605 |}) = ConsRoot wm_root /\
+  db_value k (bytes_to_hash wm_root) (k (c_contract c)) (Some (rlp_account wm_acct)) /\
+  account_wf wm_acct /\ length (a_storage wm_acct) = 32%nat /\ length (a_code wm_acct) = 32%nat /\
+  exists raw t, db_value k (a_storage wm_acct) wm_slot_key (Some raw) /\
+                rlp_decode_bytes raw = Some t /\ left_pad32 t = c_commitment c /\ length t = 18%nat.
+Proof.
+  cbv zeta.
+  split; [vm_compute; reflexivity|]. split; [vm_compute; reflexivity|].
+  split; [reflexivity|]. split; [reflexivity|].
+  split; [vm_compute; reflexivity|]. split; [reflexivity|].
+  split; [vm_compute; reflexivity|].
+  split.
+  { exists (map from_hex (p_account_proof wm_record)), (rlp_account wm_acct).
+    split; [exists 10%nat; vm_compute; reflexivity | reflexivity]. }
+  split; [vm_compute; repeat split; reflexivity|].
+  split; [reflexivity|]. split; [reflexivity|].
+  set (sp := match p_storage_proof wm_record with [Some sp] => sp | _ => {| sr_key := []; sr_value := []; sr_proof := [] |} end).
+  set (nodes := map from_hex (sr_proof sp)).
+  set (raw := match mpt_verify_g (keccak_of witness_honest_mpt) (a_storage wm_acct) wm_slot_key nodes with Some v => v | None => [] end).
+  exists raw, (match rlp_decode_bytes raw with Some t => t | None => [] end).
+  split.
+  { exists nodes, raw. split; [exists 10%nat; vm_compute; reflexivity | vm_compute; reflexivity]. }
+  vm_compute. repeat split; reflexivity.
+Qed.
+Print Assumptions C08_nonvacuous_mpt.
